@@ -196,8 +196,9 @@ def run(program, rep, tier):
         o.rule = 'C20.cross-talk'
     # each listener exactly once: registration is idempotent (C03.idempotent)
     from rules import evrules
-    rep.borrow(evrules.delivery_sites, program, rep, 'C03', {'deliver'},
-               keep=lambda o: o.rule == 'C03.deliver',
+    rep.borrow(evrules.delivery_sites, program, rep, 'C03',
+               {'deliver', 'snapshot'},
+               keep=lambda o: o.rule in ('C03.deliver', 'C03.snapshot'),
                rename=lambda r: 'C20.once',
                why='not every listener of the transform is notified')
     from rules import c04
